@@ -242,6 +242,44 @@ struct Engine {
         }
     }
 
+
+    // ---------- norm: one conditional arithmetic left shift by one (the normalisation step) ----------
+    void NormCase(u16 opcode, const DecodeInfo& d, u64 A, int fn, int fc_pre) {
+        VState s = base;
+        int acc = AccIndex(kAx[d.args[0]]);
+        int rn = d.args[1];
+        AccRef(s, acc) = A;
+        s.fn = (u16)fn, s.fc0 = (u16)fc_pre, s.fv = 0, s.fvl = 0;
+        s.r[rn] = 0x6480, s.m[rn] = 0, s.br[rn] = 0;
+        VState out;
+        std::string bad;
+        long long V = S40(A);
+        if (Exec(s, opcode, 0, out, bad)) {
+            if (fn) {
+                if (AccVal(out, acc) != A || out.fc0 != fc_pre || out.fv != 0 || out.r[rn] != s.r[rn])
+                    bad = "changed-although-normalised";
+            } else {
+                long long r = c03::Oracle::Wrap40((__int128)V * 2);
+                int carry = (int)((A >> 39) & 1);                 // the bit shifted out
+                int ovf = ((__int128)V * 2 != (__int128)r) ? 1 : 0; // the arithmetic shift lost significant bits
+                bool fe = r != (long long)(int)r;
+                if (AccVal(out, acc) != (u64)r)
+                    bad = Fmt("value (exact %010llX)", (unsigned long long)(r & 0xFFFFFFFFFFull));
+                else if (out.fc0 != carry)
+                    bad = "carry";
+                else if (out.fv != ovf || (ovf && !out.fvl))
+                    bad = "overflow";
+                else if (out.fz != (r == 0) || out.fm != (r < 0) || out.fe != fe)
+                    bad = "flags";
+            }
+        }
+        digests.insert(Fnv(&out.a, sizeof(out.a), Mix(opcode) ^ out.fc0));
+        if (!bad.empty())
+            res.AddViolation(Fmt("c04:norm:%s", bad.substr(0, bad.find(" (")).c_str()),
+                             Fmt("opcode %04X (norm): acc=%010llX n=%d carry-in=%d: implementation acc=%010llX c=%u v=%u vl=%u; %s", opcode, (unsigned long long)(A & 0xFFFFFFFFFFull), fn,
+                                 fc_pre, (unsigned long long)(AccVal(out, acc) & 0xFFFFFFFFFFull), out.fc0, out.fv, out.fvl, bad.c_str()),
+                             Fmt("c04 norm %u %llu %d %d", opcode, (unsigned long long)A, fn, fc_pre));
+    }
     // ---------- exponent ----------
     void ExpCase(u16 opcode, const DecodeInfo& d, u64 A, u16 B16) {
         std::string n = d.name;
@@ -666,6 +704,9 @@ inline int RunReplay(const std::string& r, Result& res) {
         if (!p.valid)
             return 2;
         e.ShiftCase((u16)op, d, p, A, (u16)a, (u16)b, i1, i2, i3);
+    } else if (std::sscanf(r.c_str(), "c04 norm %u %llu %d %d", &op, &A, &i1, &i2) == 4) {
+        e.impl.api->decode((u16)op, &d);
+        e.NormCase((u16)op, d, A, i1, i2);
     } else if (std::sscanf(r.c_str(), "c04 exp %u %llu %u", &op, &A, &a) == 3) {
         e.impl.api->decode((u16)op, &d);
         e.ExpCase((u16)op, d, A, (u16)a);
@@ -763,6 +804,14 @@ inline void Run(const Args& args, Result& res) {
                         for (u16 b : o16)
                             e.ExpCase((u16)op, d, Sx40((u64)b << 16), b);
                     }
+                    // ---- norm ----
+                    if (n == "norm" && ArgsAre(d, {"Ax", "Rn", "StepZIDS"})) {
+                        ++local.states;
+                        for (u64 A : accs)
+                            for (int fn = 0; fn < 2; ++fn)
+                                for (int fc = 0; fc < 2; ++fc)
+                                    e.NormCase((u16)op, d, A, fn, fc);
+                    }
                     // ---- multiply / multiply-accumulate ----
                     auto mp = Engine::MakeMulPlan(d);
                     if (mp.valid) {
@@ -844,7 +893,7 @@ inline void Run(const Args& args, Result& res) {
                 blk.distinct = e.digests.size();
             },
             res);
-    res.rule = "every encoding of shfc/shfi/movs/movsi/moda-shift (A40 or O16 values x all 65536 shift amounts for one encoding per form, boundary "
+    res.rule = "every encoding of norm (A40 x normalised flag x carry-in) and of shfc/shfi/movs/movsi/moda-shift (A40 or O16 values x all 65536 shift amounts for one encoding per form, boundary "
                "amounts for the rest x shift mode x sata), exp/exp_r6 (every sign/run-length class + O16), multiply and multiply-accumulate forms "
                "(O16 x O16 factors x half-word mode x product shift x previous products x accumulators x sata), every product-sum and "
                "dual-multiplier form (app, mma*, sqr_*, mac1: 8x8 factors on each unit x half-word mode, previous products x product shifts of both "
